@@ -718,9 +718,32 @@ func genComplexityKeys(c *Ctx) {
 				}
 			}
 		}
+		cases := map[string]*ssa.BasicBlock{}
 		if subject == nil {
-			c.R.Note("gen:"+g.Name+"/Complexity", c.pos(fn.Pos()), "no concatenated switch subject; not judged")
-			continue
+			// nested form: switch typeName { case "T": switch field { case "f": … } }
+			outer := switchCases(fn, func(v ssa.Value) bool { return an.Strip(v) == ssa.Value(pType) })
+			for _, e := range an.CondEdges(fn) {
+				if e.Fact.Op != token.EQL {
+					continue
+				}
+				for _, pr := range [][2]ssa.Value{{e.Fact.X, e.Fact.Y}, {e.Fact.Y, e.Fact.X}} {
+					f, ok := an.ConstString(pr[1])
+					if !ok || an.Strip(pr[0]) != ssa.Value(pField) {
+						continue
+					}
+					for t, tb := range outer {
+						if tb == e.To || tb.Dominates(e.To) {
+							cases[t+"."+f] = e.To
+						}
+					}
+				}
+			}
+			if len(cases) == 0 {
+				c.R.Note("gen:"+g.Name+"/Complexity", c.pos(fn.Pos()), "neither a concatenated nor a nested switch; not judged")
+				c.R.SetFloor(0)
+				continue
+			}
+			c.R.OK("gen:"+g.Name+"/Complexity/subject", c.pos(fn.Pos()), "nested switch: type name, then field")
 		}
 		left := subject
 		for {
@@ -730,8 +753,10 @@ func genComplexityKeys(c *Ctx) {
 			}
 			left = an.Strip(bo.X)
 		}
-		c.R.Check(left == ssa.Value(pType), "gen:"+g.Name+"/Complexity/subject", c.pos(fn.Pos()), "typeName + \".\" + field", "the switch subject is not typeName + \".\" + field: no case label (\"Type.field\") can match, every custom complexity function is ignored and the default cost is used")
-		cases := switchCases(fn, func(v ssa.Value) bool { return v == subject })
+		if subject != nil {
+			c.R.Check(left == ssa.Value(pType), "gen:"+g.Name+"/Complexity/subject", c.pos(fn.Pos()), "typeName + \".\" + field", "the switch subject is not typeName + \".\" + field: no case label (\"Type.field\") can match, every custom complexity function is ignored and the default cost is used")
+			cases = switchCases(fn, func(v ssa.Value) bool { return v == subject })
+		}
 		n := 0
 		for label, blk := range cases {
 			parts := strings.SplitN(label, ".", 2)
@@ -780,7 +805,9 @@ func genDeferredSetFresh(c *Ctx) {
 				continue
 			}
 			var fields ssa.Value
-			for _, call := range an.CallsIn(fn, func(_ ssa.CallInstruction, ci an.CalleeInfo) bool { return ci.FullName() == pkgGraphql+".CollectFields" }) {
+			for _, call := range an.CallsIn(fn, func(_ ssa.CallInstruction, ci an.CalleeInfo) bool {
+				return ci.FullName() == pkgGraphql+".CollectFields"
+			}) {
 				if v, ok := call.(ssa.Value); ok {
 					fields = v
 				}
